@@ -17,24 +17,26 @@ import (
 
 // checks.json: property -> spec
 type tierSpec struct {
-	Params     map[string]int `json:"params"`
-	MaxPaths   int            `json:"maxpaths"`
-	MaxSteps   int            `json:"maxsteps"`
-	MaxLoop    int            `json:"maxloop"`
-	Solver     string         `json:"solver"`
-	TimeoutMS  int            `json:"timeout_ms"`
-	Sched      int            `json:"sched"`
-	Ctx        int            `json:"ctx"`
-	EnvFires   int            `json:"envfires"`
-	Real       bool           `json:"real"`
-	MapOrders  bool           `json:"maporders"`
-	SelectChoice bool         `json:"selectchoice"`
-	EnvLazy    bool           `json:"envlazy"`
-	EnvBoundOK bool           `json:"envbound_ok"`
-	NPBound    int            `json:"npbound"`
-	Race       bool           `json:"race"`
-	Skip       bool           `json:"skip"`
-	Witnesses  int            `json:"witness_replays"`
+	Params       map[string]int `json:"params"`
+	MaxPaths     int            `json:"maxpaths"`
+	MaxSteps     int            `json:"maxsteps"`
+	MaxLoop      int            `json:"maxloop"`
+	Solver       string         `json:"solver"`
+	TimeoutMS    int            `json:"timeout_ms"`
+	Sched        int            `json:"sched"`
+	Ctx          *int           `json:"ctx"`
+	EnvFires     int            `json:"envfires"`
+	Real         bool           `json:"real"`
+	MapOrders    bool           `json:"maporders"`
+	SelectChoice bool           `json:"selectchoice"`
+	SelectLast   bool           `json:"selectlast"`
+	EnvLazy      bool           `json:"envlazy"`
+	EnvBoundOK   bool           `json:"envbound_ok"`
+	LazyFires    int            `json:"lazyfires"`
+	NPBound      int            `json:"npbound"`
+	Race         bool           `json:"race"`
+	Skip         bool           `json:"skip"`
+	Witnesses    int            `json:"witness_replays"`
 }
 
 type harnessSpec struct {
@@ -537,8 +539,8 @@ func runCheck(prop, tier string, seed int, repoDir string, spec propSpec, outDir
 			cfg.TimeoutMS = ts.TimeoutMS
 		}
 		cfg.SchedMode = ts.Sched
-		if ts.Ctx > 0 {
-			cfg.CtxBound = ts.Ctx
+		if ts.Ctx != nil {
+			cfg.CtxBound = *ts.Ctx // 0: no preemptions (free choices at blocking points only)
 		}
 		if ts.EnvFires > 0 {
 			cfg.EnvFires = ts.EnvFires
@@ -546,8 +548,10 @@ func runCheck(prop, tier string, seed int, repoDir string, spec propSpec, outDir
 		cfg.RealFloats = ts.Real
 		cfg.MapOrders = ts.MapOrders
 		cfg.SelectChoice = ts.SelectChoice
+		cfg.SelectLast = ts.SelectLast
 		cfg.EnvLazy = ts.EnvLazy
 		cfg.EnvBoundOK = ts.EnvBoundOK
+		cfg.LazyFires = ts.LazyFires
 		cfg.NPBound = ts.NPBound
 		cfg.Race = ts.Race
 		raceNow = ts.Race
